@@ -150,6 +150,10 @@ def oracleTri (poly : Array (V2 Rat)) (out : List String) : String :=
 def oracleHM (poly : Array (V2 Rat)) (tris : Array (Nat × Nat × Nat)) (out : List String) : String :=
   let n := poly.size
   if tris.any (fun (a, b, c) => a ≥ n || b ≥ n || c ≥ n) then "skip bad-input-index" else
+  -- the clause is about tilings of a SIMPLE polygon (every generated case passes the polygon as the vertex list): the
+  -- triangles an accepted non-simple polygon yields (KNOWN FINDING "no simplicity check") can be exactly disjoint and
+  -- counter-clockwise and still contain a zero-width fold-back, which the `!= Cw` corner tests let through
+  if !(isSimple poly) then "skip vertex-cycle-not-a-simple-polygon" else
   let T := tris.toList.map fun (a, b, c) => [poly.getD a ⟨0,0⟩, poly.getD b ⟨0,0⟩, poly.getD c ⟨0,0⟩]
   let sl := slackOf poly
   if !(T.all (isConvexCcw 0)) then "skip input-triangle-not-ccw" else
@@ -234,6 +238,7 @@ def judgePieces (poly : Array (V2 Rat)) (A tol sl : Rat) (P : List (List (V2 Rat
 def oracleHMPts (poly : Array (V2 Rat)) (tris : Array (Nat × Nat × Nat)) (out : List String) : String :=
   let n := poly.size
   if tris.any (fun (a, b, c) => a ≥ n || b ≥ n || c ≥ n) then "skip bad-input-index" else
+  if !(isSimple poly) then "skip vertex-cycle-not-a-simple-polygon" else
   let T := tris.toList.map fun (a, b, c) => [poly.getD a ⟨0,0⟩, poly.getD b ⟨0,0⟩, poly.getD c ⟨0,0⟩]
   if !(T.all (isConvexCcw 0)) then "skip input-triangle-not-ccw" else
   if !(allDisjoint 0 T) then "skip input-triangles-overlap" else
@@ -309,6 +314,7 @@ def handler (fn : String) : Option Handler :=
           let n := poly.size
           if o = ["none"] then "skip empty-index-buffer" else
           if tris.any (fun (a, b, c) => a ≥ n || b ≥ n || c ≥ n) then "skip bad-input-index" else
+          if !(isSimple poly) then "skip vertex-cycle-not-a-simple-polygon" else
           let T := tris.toList.map fun (a, b, c) => [poly.getD a ⟨0,0⟩, poly.getD b ⟨0,0⟩, poly.getD c ⟨0,0⟩]
           if !(T.all (isConvexCcw 0)) then "skip input-triangle-not-ccw" else
           if !(allDisjoint 0 T) then "skip input-triangles-overlap" else
